@@ -262,17 +262,24 @@ def ExcType.wf (t : ExcType) : Bool :=
   && (t.userDefined || !t.userInit)                                       -- only user classes have user initialisers
   && (!t.isMaltError || (!t.userDefined && !t.userInit && t.nearestBuiltin == "Exception"))
 
+/-- The nearest builtin base "takes a plain message": the documented builtins. -/
+def plainBuiltin (nb : String) : Bool :=
+  Gen.Errors.knownStringConstructorErrors.contains nb || nb == "Exception" || nb == "KeyError"
+
 /-- The property's rule: the type is kept iff it "takes a plain message and defines no initialiser of
 its own": the documented builtins (`KNOWN_STRING_CONSTRUCTOR_ERRORS`, `KeyError` as a same-named
-subclass, `Exception` itself, malt's own errors) and every user class that adds no initialiser. -/
+subclass, `Exception` itself, malt's own errors) and every user class that adds no initialiser to one
+of them. -/
 def expectedSame (t : ExcType) : Bool :=
-  t.isMaltError || inKnown t || isKeyError t || (!t.userInit && (t.userDefined || t.name == "Exception"))
+  t.isMaltError || inKnown t || isKeyError t ||
+    (!t.userInit && ((t.userDefined && plainBuiltin t.nearestBuiltin) || (!t.userDefined && t.name == "Exception")))
 
 /-- The class of types on which the pinned code deviates from the rule (known finding
 `C12-builtin-derived-type`): a user class without an initialiser of its own whose nearest builtin
-base is not `Exception` — `T.__init__` is then that builtin's slot wrapper, not `Exception.__init__`. -/
+base takes a plain message but is not `Exception` — `T.__init__` is then that builtin's slot wrapper,
+not `Exception.__init__`, and `T` itself is not in the list. -/
 def inheritsBuiltinInit (t : ExcType) : Bool :=
-  t.userDefined && !t.userInit && t.nearestBuiltin != "Exception"
+  t.userDefined && !t.userInit && t.nearestBuiltin != "Exception" && plainBuiltin t.nearestBuiltin
 
 /-! ## Origin inheritance (`transformer.Base.visit`, `origin_info.copy_origin`) -/
 
